@@ -39,23 +39,106 @@ theorem foldlM_filter_covering (fs : List (Feature R)) (ctx : Ctx R) (q : Query 
       simp only [List.filter_cons, hc', List.foldlM_cons, C02_noncovering_noop f ctx q hc']
       simpa using ih out
 
+/-! #### the world temperature the water-content models ask for: the same filter argument
+
+`World.props3` hands the features the query `w.query pt depth`, which carries (unevaluated) `w.temperaturePure pt depth`.  For the
+statements below the two worlds must agree on it: the temperature at the point is painted by the covering features only. -/
+
+/-- the guards of a feature do not look at the world-temperature call-back of the query -/
+theorem Feature.cover_worldT (f : Feature R) (ctx : Ctx R) (q : Query R) (t : Unit → Except Err R) :
+    f.cover ctx { q with worldT := t } = f.cover ctx q := by
+  cases f with
+  | area a => rfl
+  | plume p => rfl
+  | line l => rfl
+
+theorem Feature.covers_worldT (f : Feature R) (ctx : Ctx R) (q : Query R) (t : Unit → Except Err R) :
+    f.covers ctx { q with worldT := t } = f.covers ctx q := by
+  unfold Feature.covers
+  rw [Feature.cover_worldT]
+
+/-- two worlds with the same constants hand their features queries with the same guards -/
+theorem Feature.covers_query (f : Feature R) (w w' : World R) (hctx : w'.ctx = w.ctx) (pt : P3 R) (depth : R) :
+    f.covers w.ctx (w'.query pt depth) = f.covers w.ctx (w.query pt depth) := by
+  have h1 := Feature.covers_worldT f w.ctx (w.query pt depth) (w'.query pt depth).worldT
+  rw [← h1]
+  simp only [World.query, hctx]
+
+/-- a feature that does not contain the point leaves the temperature alone -/
+theorem Feature.applyTemp_noncovering (f : Feature R) (ctx : Ctx R) (q : Query R) (h : f.covers ctx q = false) (old : R) :
+    f.applyTemp ctx q old = .ok old := by
+  unfold Feature.covers at h
+  cases f with
+  | area a =>
+    simp only [Feature.cover] at h
+    simp only [Feature.applyTemp, AreaFeature.applyTemp]
+    cases hc : a.covers ctx q with
+    | error e => simp [hc, Except.map] at h
+    | ok o => cases o <;> simp [hc, Except.map] at h ⊢ <;> rfl
+  | plume p =>
+    simp only [Feature.cover] at h
+    simp only [Feature.applyTemp, PlumeFeature.applyTemp]
+    cases hc : p.covers ctx q with
+    | error e => simp [hc, Except.map] at h
+    | ok o => cases o <;> simp [hc, Except.map] at h ⊢ <;> rfl
+  | line l =>
+    simp only [Feature.cover] at h
+    simp only [Feature.applyTemp, LineFeature.applyTemp]
+    cases hc : l.covers ctx q with
+    | error e => simp [hc, Except.map] at h
+    | ok o => cases o <;> simp [hc, Except.map] at h ⊢ <;> rfl
+
+theorem foldlM_applyTemp_filter_covering (fs : List (Feature R)) (ctx : Ctx R) (q : Query R) (t : R) :
+    fs.foldlM (fun t f => f.applyTemp ctx q t) t = (fs.filter (fun f => f.covers ctx q)).foldlM (fun t f => f.applyTemp ctx q t) t := by
+  induction fs generalizing t with
+  | nil => rfl
+  | cons f fs ih =>
+    by_cases hc : f.covers ctx q = true
+    · simp only [List.filter_cons, hc, if_true, List.foldlM_cons]
+      congr 1; funext t'; exact ih t'
+    · have hc' : f.covers ctx q = false := by simpa using hc
+      simp only [List.filter_cons, hc', List.foldlM_cons, Feature.applyTemp_noncovering f ctx q hc']
+      simpa [bind, Except.bind] using ih t
+
+/-- the world temperature at a point is that of the world that keeps the covering features -/
+theorem World.temperaturePure_filter_covering (w : World R) (pt : P3 R) (depth : R) :
+    ({ w with features := w.features.filter (fun f => f.covers w.ctx (w.query pt depth)) } : World R).temperaturePure pt depth =
+      w.temperaturePure pt depth := by
+  have hq : ∀ f : Feature R, f.covers w.ctx (w.query pt depth) =
+      f.covers w.ctx { pt := pt, nat := w.ctx.coord.toNatural pt, depth := depth, gravityNorm := w.ctx.gravity } :=
+    fun f => (Feature.covers_worldT f w.ctx _ (w.query pt depth).worldT).symm
+  unfold World.temperaturePure
+  simp only [hq]
+  split
+  · rfl
+  · rw [foldlM_applyTemp_filter_covering w.features]
+
+theorem World.query_filter_covering (w : World R) (pt : P3 R) (depth : R) :
+    ({ w with features := w.features.filter (fun f => f.covers w.ctx (w.query pt depth)) } : World R).query pt depth =
+      w.query pt depth := by
+  have h := World.temperaturePure_filter_covering w pt depth
+  simp only [World.query] at h ⊢
+  simp only [h]
+
 /-- **C02.2** only covering features matter: the answer at a point is the answer of the world that keeps exactly
 the features containing that point, in file order.  (Hence deleting a non-covering feature, or moving it anywhere
 in the list, changes nothing there.) -/
 theorem C02_filter_covering (w : World R) (pt : P3 R) (depth : R) (ps : List Req) :
     w.props3 (G := G) pt depth ps =
       ({ w with features := (w.features.filter
-          (fun f => f.covers w.ctx ⟨pt, w.ctx.coord.toNatural pt, depth, w.ctx.gravity⟩)) } : World R).props3 pt depth ps := by
+          (fun f => f.covers w.ctx (w.query pt depth))) } : World R).props3 pt depth ps := by
   unfold World.props3
-  simp only [foldlM_filter_covering w.features]
+  simp only [World.query_filter_covering w pt depth, foldlM_filter_covering w.features]
 
 /-- corollary: any two feature lists with the same covering sub-list give the same answer at the point -/
 theorem C02_same_covering_same_answer (w : World R) (fs' : List (Feature R)) (pt : P3 R) (depth : R) (ps : List Req)
-    (h : w.features.filter (fun f => f.covers w.ctx ⟨pt, w.ctx.coord.toNatural pt, depth, w.ctx.gravity⟩)
-       = fs'.filter (fun f => f.covers w.ctx ⟨pt, w.ctx.coord.toNatural pt, depth, w.ctx.gravity⟩)) :
+    (h : w.features.filter (fun f => f.covers w.ctx (w.query pt depth))
+       = fs'.filter (fun f => f.covers w.ctx (w.query pt depth))) :
     w.props3 (G := G) pt depth ps = ({ w with features := fs' } : World R).props3 pt depth ps := by
   rw [C02_filter_covering w, C02_filter_covering { w with features := fs' }]
-  simp only [h]
+  have hq : ∀ f : Feature R, f.covers w.ctx (({ w with features := fs' } : World R).query pt depth) = f.covers w.ctx (w.query pt depth) :=
+    fun f => Feature.covers_query f w { w with features := fs' } rfl pt depth
+  simp only [hq, h]
 
 /-! ### the tag -/
 
@@ -90,7 +173,9 @@ theorem featuresBlocks_tag (fs : List (Feature R)) (ctx : Ctx R) (q : Query R) (
           have htag : hit.paintAt (G := G) ctx q Req.tag 0 b g = .ok (writeBlock 0 [Scalar.nat hit.tag] b, g) := by
             cases hit with
             | areaLike tag ms a c r => simp [Hit.paintAt, paintAt, Req.tag, QM.pure_apply, Hit.tag]
-            | line l hh => simp [Hit.paintAt, linePaintAt, Req.tag, pure, Except.pure, liftE_ok, Hit.tag]
+            | line l hh =>
+              simp [Hit.paintAt, linePaintAtM, LineHit.prepare, Segment.prepare, linePaintAt, Req.tag, pure, Except.pure, liftE_ok,
+                Hit.tag, StateT.pure, StateT.bind, bind, Except.bind]
           simp only [hc, paintBlocks, QM.bind_apply, htag, QM.pure_apply] at h0
           rw [writeBlock_zero b [Scalar.nat hit.tag] (by simp [hb]), Feature.cover_tag f ctx q hit hc] at h0
           simp only [Except.ok.injEq, Prod.mk.injEq] at h0
@@ -111,7 +196,7 @@ theorem featuresBlocks_tag (fs : List (Feature R)) (ctx : Ctx R) (q : Query R) (
 theorem C02_tag_last_covering (w : World R) (pt : P3 R) (depth : R) (g g' : G) (out : List R)
     (h : w.props3 pt depth [Req.tag] g = .ok (out, g')) :
     out = (match (w.features.filter
-                (fun f => f.covers w.ctx ⟨pt, w.ctx.coord.toNatural pt, depth, w.ctx.gravity⟩)).getLast? with
+                (fun f => f.covers w.ctx (w.query pt depth))).getLast? with
            | some f => [Scalar.nat f.tag]
            | none => [-1]) := by
   rw [World.props3_blocks] at h
@@ -121,7 +206,7 @@ theorem C02_tag_last_covering (w : World R) (pt : P3 R) (depth : R) (g g' : G) (
   simp only [hinit] at h
   have hearly : earlyReturn w.ctx depth [Req.tag] = false := by simp [earlyReturn, Req.tag]
   simp only [hearly, Bool.false_eq_true, if_false] at h
-  cases hfb : featuresBlocks w.features w.ctx ⟨pt, w.ctx.coord.toNatural pt, depth, w.ctx.gravity⟩ [Req.tag] [[-1]] g with
+  cases hfb : featuresBlocks w.features w.ctx (w.query pt depth) [Req.tag] [[-1]] g with
   | error e => simp [hfb, embedBlocks] at h
   | ok r =>
     obtain ⟨bs', g1⟩ := r
@@ -130,7 +215,7 @@ theorem C02_tag_last_covering (w : World R) (pt : P3 R) (depth : R) (g g' : G) (
     obtain ⟨rfl, _⟩ := h
     rw [this]
     simp only [reimposeBlocks, Req.tag]
-    cases (w.features.filter (fun f => f.covers w.ctx ⟨pt, w.ctx.coord.toNatural pt, depth, w.ctx.gravity⟩)).getLast? <;> simp
+    cases (w.features.filter (fun f => f.covers w.ctx (w.query pt depth))).getLast? <;> simp
 
 /-! ### the operation algebra -/
 
